@@ -408,9 +408,10 @@ class Simplifier(pysmt.walkers.DagWalker):
             return self.manager.Real(l**r)
 
         if args[0].is_int_constant():
+            # The type of a POW node is always Real
             l = cast(int, args[0].constant_value())
             r = cast(int, args[1].constant_value())
-            return self.manager.Int(l**r)
+            return self.manager.Real(Fraction(l)**r)
 
         if args[0].is_algebraic_constant():
             from pysmt.constants import Numeral
